@@ -154,6 +154,19 @@ def cond_of(e: ast.AST, expand: Optional[Callable[[ast.AST], ast.AST]] = None) -
         e = expand(e)
         if isinstance(e, (ast.BoolOp,)) or (isinstance(e, ast.UnaryOp) and isinstance(e.op, ast.Not)):
             return cond_of(e, None)
+    # equality of two truth values: bool(a) == bool(b)  <=>  (a and b) or (not a and not b)
+    if isinstance(e, ast.Compare) and len(e.ops) == 1 and isinstance(e.ops[0], (ast.Eq, ast.NotEq, ast.Is, ast.IsNot)):
+        l, r = e.left, e.comparators[0]
+
+        def _truthy(x):
+            return isinstance(x, ast.Call) and isinstance(x.func, ast.Name) and x.func.id == "bool" and len(x.args) == 1
+
+        if _truthy(l) and _truthy(r):
+            a, b = cond_of(l.args[0], None), cond_of(r.args[0], None)
+            eq = Cond("or", [Cond("and", [a, b]), Cond("and", [Cond("not", [a]), Cond("not", [b])])])
+            return eq if isinstance(e.ops[0], (ast.Eq, ast.Is)) else Cond("not", [eq])
+    if isinstance(e, ast.Call) and isinstance(e.func, ast.Name) and e.func.id == "bool" and len(e.args) == 1 and isinstance(e.args[0], (ast.BoolOp, ast.UnaryOp, ast.Compare)):
+        return cond_of(e.args[0], None)
     a, pol = canon_atom(e)
     return Cond("atom", atom=a, pol=pol)
 
